@@ -266,7 +266,7 @@ RESERVED = ("NOTES", "NOTEDATA")
 @st.composite
 def _free_pair(draw):
     """one non-timing pair of an SM source / SSC template"""
-    sel = draw(st.integers(0, 9))
+    sel = draw(st.sampled_from(range(10)))
     if sel <= 2:
         k = draw(st.sampled_from(SM_KEYS))
     elif sel == 3:
@@ -299,6 +299,10 @@ def _sm_chart(draw):
         fields[0] = draw(st.sampled_from(["dance-single", "dance-double", "pump-routine"]))
         fields[3] = draw(st.sampled_from(["1", "9", "0"]))
     fields.append(draw(G.notedata()))
+    if draw(st.sampled_from([False] * 7 + [True])):
+        # one-character note data equal to another field: CPython interns such strings (one object)
+        fields[5] = draw(st.sampled_from(["1", "0", "M"]))
+        fields[draw(st.sampled_from([3, 1, 0, 2, 4]))] = fields[5]
     extra = draw(st.one_of(st.none(), st.lists(G.value(allow_none=False), max_size=2)))
     return {"fields": fields, "extra": extra}
 
@@ -310,7 +314,7 @@ def _ssc_chart_items(draw, as_template):
     n = draw(st.integers(0, 6))
     items = []
     for _ in range(n):
-        sel = draw(st.integers(0, 5))
+        sel = draw(st.sampled_from(range(6)))
         if sel <= 1:
             items.append([draw(st.sampled_from(SIX[:5])), draw(G.value(allow_none=False))])
         elif sel == 2:
@@ -339,9 +343,9 @@ def s_convert(draw, negative=False):
     timing = [["OFFSET", draw(G.OFFSETS)], ["BPMS", draw(G.bpms())], ["STOPS", draw(G.stops())]]
     if draw(st.booleans()):
         timing.append(["DELAYS", draw(G.stops())])
-    if draw(st.integers(0, 3)) == 0:
+    if draw(st.sampled_from(range(4))) == 0:
         timing.append(["WARPS", draw(G.warps())])
-    if draw(st.integers(0, 5)) == 0:
+    if draw(st.sampled_from(range(6))) == 0:
         # a stop of length zero is not negative
         timing[2][1] = (timing[2][1] + "," if timing[2][1] else "") + "9600.000=0.000"
     if negative:
@@ -355,7 +359,10 @@ def s_convert(draw, negative=False):
                 b, _, v = rows[i].partition("=")
                 rows[i] = b + "=-" + (v if Decimal(v) != 0 else "0.001")
                 timing[idx][1] = ",".join(rows)
-    others = _dedup(draw(st.lists(_free_pair(), max_size=6)))
+    others = draw(st.lists(_free_pair(), max_size=6))
+    if draw(st.sampled_from([False] * 4 + [True])):
+        others.insert(0, [draw(st.sampled_from(SM_KEYS + SSC_ONLY_FREE)), None])  # key-only parameter
+    others = _dedup(others)
     tkeys = {p[0] for p in timing}
     others = [p for p in others if p[0] not in tkeys]
     props = draw(st.permutations(timing + others))
@@ -363,7 +370,7 @@ def s_convert(draw, negative=False):
         "base": draw(st.sampled_from(["blank", "blank", "empty"])),
         "del": [],
         "props": [list(p) for p in props],
-        "charts": draw(st.lists(_sm_chart(), max_size=3)),
+        "charts": [draw(_sm_chart()) for _ in range(draw(st.sampled_from([0, 0, 1, 1, 2, 3])))],
     }
     has = {p[0] for p in src["props"]}
 
@@ -487,6 +494,6 @@ def parts(tier):
     q = tier == "quick"
     return [
         {"name": "corpus", "kind": "fixed", "cases": _corpus_cases},
-        {"name": "convert", "kind": "hypothesis", "strategy": lambda: s_convert(False), "examples": 4000 if q else 16 * 12000},
-        {"name": "negative", "kind": "hypothesis", "strategy": lambda: s_convert(True), "examples": 800 if q else 16 * 2000},
+        {"name": "convert", "kind": "hypothesis", "strategy": lambda: s_convert(False), "examples": 4000 if q else 16 * 8000},
+        {"name": "negative", "kind": "hypothesis", "strategy": lambda: s_convert(True), "examples": 800 if q else 16 * 1500},
     ]
